@@ -77,7 +77,7 @@ func (alloc *BootMemAllocator) AllocFrame() (mm.Frame, *kernel.Error) {
 		// start we need to jump to the page following the kernel end
 		// frame
 		if (alloc.lastAllocFrame <= regionStartFrame && alloc.kernelStartFrame == regionStartFrame) ||
-			(alloc.lastAllocFrame <= regionEndFrame && alloc.lastAllocFrame+1 == alloc.kernelStartFrame) {
+			(alloc.lastAllocFrame >= regionStartFrame && alloc.lastAllocFrame+1 == alloc.kernelStartFrame) {
 			//fmt.Printf("last: %d, case: 1, set last: %d\n", alloc.lastAllocFrame, alloc.kernelEndFrame+1)
 			alloc.lastAllocFrame = alloc.kernelEndFrame + 1
 		} else if alloc.lastAllocFrame < regionStartFrame || alloc.allocCount == 0 {
